@@ -9,21 +9,54 @@
       [canon p m]  = [good p m] and [ser m = p] (re-marshalling gives the payload back)
       [collision p] = a different payload with the same CRC that also unmarshals *)
 From Coq Require Import List ZArith NArith Bool Sorted.
-From Kardia Require Import Base.ListX C15.Crc32c C15.ProofsCrc C15.Model C15.ProofsLog C15.ProofsGroup C15.ProofsTop
-  Generated.C15Facts.
+From Kardia Require Import Base.ListX C15.Crc32c C15.ProofsCrc C15.Model C15.ProofsLog C15.ProofsGroup C15.ProofsSearch
+  C15.ProofsTop Generated.C15Facts.
 Import ListNotations.
 
-(** Whatever sequence of Write / WriteSync / head-size ticks / flushes / rotations is run on an
-    empty group, after a final flush a GroupReader from the first file returns exactly the
-    accepted messages, in order, then end-of-log (file rotation is invisible). *)
+(** Whatever sequence of Write / WriteSync / head-size ticks / flushes / rotations / restarts /
+    total-size prunings is run on an empty group, after a final flush a GroupReader from the first
+    file returns exactly the messages that are still kept, in order, then end-of-log (file rotation is
+    invisible).  [kept] = [written] minus the oldest records, whose files checkTotalSizeLimit removed
+    (see C15_kept_suffix); without a pruning step it is everything that was accepted. *)
 Theorem C15_roundtrip :
   forall (msg : Type) (deser : bytes -> option msg) (min : nat) (limit : Z) (ops : list wal_op)
          (ms : list msg) (cont : bool),
-    Forall2 (good msg deser) (written min limit ops) ms ->
+    Forall2 (good msg deser) (kept min limit ops) ms ->
     let g := final_group min limit ops in
     read_log crc32c msg deser cont RGroup (group_stream g (g_min g)) = map ObMsg ms ++ [ObEof].
 Proof. exact top_roundtrip. Qed.
 Print Assumptions C15_roundtrip.
+
+(** what pruning may lose: whole records from the old end only — exactly as many bytes of frames as
+    the removed files held *)
+Theorem C15_kept_suffix :
+  forall (min : nat) (limit : Z) (ops : list wal_op),
+    exists dropped, written min limit ops = dropped ++ kept min limit ops /\
+                    length (frames crc32c dropped) = pruned_bytes min limit ops.
+Proof. exact top_kept_suffix. Qed.
+Print Assumptions C15_kept_suffix.
+
+(** without a total-size pruning step nothing is ever lost *)
+Theorem C15_no_prune_keeps_all :
+  forall (min : nat) (limit : Z) (ops : list wal_op),
+    (forall tl, ~ In (WPrune tl) ops) ->
+    pruned_bytes min limit ops = 0 /\ kept min limit ops = written min limit ops.
+Proof. exact top_no_prune. Qed.
+Print Assumptions C15_no_prune_keeps_all.
+
+(** checkTotalSizeLimit on ANY group: it removes only rotated files, oldest first, at most
+    maxFilesToRemove per tick, never the head or the write buffer; each removal happened with the
+    remaining total at or above the limit, and it stops as soon as the total is below it *)
+Theorem C15_prune_sound :
+  forall (tl : Z) (g : group),
+    let k := pruned_count tl g in
+    let g' := check_total_size_limit tl g in
+    g_files g' = skipn k (g_files g) /\ g_head g' = g_head g /\ g_buf g' = g_buf g /\ g_min g' = g_min g + k /\
+    k <= N.to_nat max_files_to_remove /\ k <= length (g_files g) /\
+    (forall j, j < k -> tl <> 0%Z /\ (tl <= total_size g - Z.of_nat (length (concat (firstn j (g_files g)))))%Z) /\
+    (tl <> 0%Z -> k < N.to_nat max_files_to_remove -> k < length (g_files g) -> (total_size g' < tl)%Z).
+Proof. exact top_prune_sound. Qed.
+Print Assumptions C15_prune_sound.
 
 (** the same on the bytes, for both readers (os.File and GroupReader) *)
 Theorem C15_roundtrip_bytes :
@@ -34,11 +67,11 @@ Proof. exact top_roundtrip_bytes. Qed.
 Print Assumptions C15_roundtrip_bytes.
 
 (** rotation happens only between records: every file of the group is a sequence of whole frames,
-    and together they are exactly what was accepted *)
+    and together they are exactly what is kept *)
 Theorem C15_rotation_between_records :
   forall (min : nat) (limit : Z) (ops : list wal_op),
     exists chunks, disk_files (final_group min limit ops) = map (frames crc32c) chunks /\
-                   concat chunks = written min limit ops.
+                   concat chunks = kept min limit ops.
 Proof. exact top_rotation. Qed.
 Print Assumptions C15_rotation_between_records.
 
@@ -92,6 +125,33 @@ Theorem C15_bitflip_detected :
 Proof. exact top_bitflip. Qed.
 Print Assumptions C15_bitflip_detected.
 
+(** The whole log with ONE record damaged (any one byte of its CRC field or payload changed — so any
+    single-bit flip there): both readers return every record before it, report the damaged one as a
+    checksum error, and nothing else — in stop mode (catchupReplay, repairWalFile) the log ends there,
+    in ignore mode (SearchForEndHeight) every record behind it comes back too, then end-of-log. *)
+Theorem C15_bitflip_log :
+  forall (msg : Type) (deser : bytes -> option msg) (cont : bool) (k : rkind)
+         (pre : list bytes) (p : bytes) (post : list bytes) (pre_ms post_ms : list msg) (i : nat) (b' : N),
+    Forall2 (good msg deser) pre pre_ms -> Forall2 (good msg deser) post post_ms ->
+    wf_bytes p -> p <> [] -> (lenN p <= max_msg_size_bytes)%N ->
+    i < length (frame crc32c p) -> ~ (4 <= i < 8) -> (b' < 256)%N -> nth i (frame crc32c p) 0%N <> b' ->
+    read_log crc32c msg deser cont k (frames crc32c pre ++ set_nth i b' (frame crc32c p) ++ frames crc32c post) =
+      map ObMsg pre_ms ++ ObCorrupt CCrc :: (if cont then map ObMsg post_ms ++ [ObEof] else []).
+Proof. exact top_bitflip_log. Qed.
+Print Assumptions C15_bitflip_log.
+
+(** Anything appended to a valid log (a garbage suffix, a torn or damaged record, nothing): the written
+    messages come back first, in order and unchanged; what follows is exactly the reading of the suffix
+    on its own — by C15_decode_sound it can yield a message only where the suffix itself contains a
+    CRC-consistent frame within the size limit. *)
+Theorem C15_suffix :
+  forall (msg : Type) (ser : msg -> bytes) (deser : bytes -> option msg) (cont : bool) (k : rkind)
+         (ps : list bytes) (ms : list msg) (tail : bytes),
+    Forall2 (good msg deser) ps ms ->
+    read_log crc32c msg deser cont k (frames crc32c ps ++ tail) = map ObMsg ms ++ read_log crc32c msg deser cont k tail.
+Proof. exact top_suffix. Qed.
+Print Assumptions C15_suffix.
+
 (** the CRC update is GF(2)-linear and injective on 32-bit states (what the theorem above rests on) *)
 Theorem C15_crc_step_linear : forall a b, crc_bit (N.lxor a b) = N.lxor (crc_bit a) (crc_bit b).
 Proof. exact crc_bit_linear. Qed.
@@ -114,28 +174,82 @@ Theorem C15_lenflip_residual :
 Proof. exact top_lenflip. Qed.
 Print Assumptions C15_lenflip_residual.
 
-(** SearchForEndHeight on the group produced by any operation sequence, restarts included
+(** SearchForEndHeight on the group produced by any operation sequence, restarts and prunings included
     ([WStart]: Stop, NewWAL on the same files, Start — OnStart writes EndHeightMessage{0} whenever the
-    head file is empty, so also after a rotation).  Hypothesis: the messages are valid and the POSITIVE
-    end-height markers increase strictly; markers <= 0 (the restart marker) may occur anywhere and
-    repeat.  Then a positive height is found iff it was written, with the returned reader positioned
-    exactly after the marker's frame (its remaining bytes are the frames written after it); a
-    non-positive height is found iff it was written. *)
+    head file is empty, so also after a rotation; [WPrune]: checkTotalSizeLimit).  Hypothesis: the kept
+    messages are valid and their POSITIVE end-height markers increase strictly; markers <= 0 (the
+    restart marker) may occur anywhere and repeat.  Then a positive height is found iff it is among the
+    kept records, with the returned reader positioned exactly after the marker's frame (its remaining
+    bytes are the frames written after it); a non-positive height is found iff it is kept. *)
 Theorem C15_search_iff :
   forall (msg : Type) (deser : bytes -> option msg) (end_height : msg -> option Z)
          (min : nat) (limit : Z) (ops : list wal_op) (h : Z) (ign : bool),
-    Forall (goodp msg deser) (written min limit ops) ->
-    StronglySorted Z.lt (pos_marks msg deser end_height (written min limit ops)) ->
+    Forall (goodp msg deser) (kept min limit ops) ->
+    StronglySorted Z.lt (pos_marks msg deser end_height (kept min limit ops)) ->
     let g := final_group min limit ops in
-    (forall pre p0 post, (0 < h)%Z -> written min limit ops = pre ++ p0 :: post ->
+    (forall pre p0 post, (0 < h)%Z -> kept min limit ops = pre ++ p0 :: post ->
        mark msg deser end_height p0 = Some h ->
        search crc32c msg deser end_height g h ign = SFound (frames crc32c post)) /\
-    ((h <= 0)%Z -> In h (marks msg deser end_height (written min limit ops)) ->
+    ((h <= 0)%Z -> In h (marks msg deser end_height (kept min limit ops)) ->
        exists rest, search crc32c msg deser end_height g h ign = SFound rest) /\
-    (~ In h (marks msg deser end_height (written min limit ops)) ->
+    (~ In h (marks msg deser end_height (kept min limit ops)) ->
        search crc32c msg deser end_height g h ign = SNotFound).
 Proof. exact top_search. Qed.
 Print Assumptions C15_search_iff.
+
+(** the pruning scenario, computed: the oldest of three files is removed, its height is gone, the others are found *)
+Theorem C15_prune_example :
+  let ops := [WWriteSync [3%N]; WRotate; WWriteSync [4%N]; WRotate; WWriteSync [5%N]; WPrune 20] in
+  written 0 0 ops = [[3%N]; [4%N]; [5%N]] /\ pruned_bytes 0 0 ops = 9 /\ kept 0 0 ops = [[4%N]; [5%N]] /\
+  g_min (final_group 0 0 ops) = 1 /\
+  search crc32c Z toy_deser toy_eh (final_group 0 0 ops) 3 true = SNotFound /\
+  search crc32c Z toy_deser toy_eh (final_group 0 0 ops) 4 true = SFound (frame crc32c [5%N]).
+Proof. exact toy_prune. Qed.
+Print Assumptions C15_prune_example.
+
+(** SearchForEndHeight on a DAMAGED log.  The files of the group are sequences of items: good records
+    ([IGood p], the frame of a valid payload) and damaged ones ([IBad b c]: bytes that the group reader's
+    Decode reports as corruption class [c] and steps over, whatever follows — by C15_flipped_steps_over,
+    every record with a byte of its CRC field or payload changed is one).  Any number of records may be
+    damaged, anywhere.  The POSITIVE markers of the intact records increase strictly.  Then with
+    IgnoreDataCorruptionErrors a positive height is found iff its marker record is intact, with the reader
+    positioned exactly after it (the rest of the log, damaged records included); non-positive heights are
+    found iff an intact marker has them; without the option the answer is the same, or the corruption
+    error of one of the damaged records. *)
+Theorem C15_search_damaged :
+  forall (msg : Type) (deser : bytes -> option msg) (end_height : msg -> option Z)
+         (g : group) (chunks : list (list item)) (h : Z),
+    disk_files g = map (istream crc32c) chunks -> Forall (iok crc32c msg deser) (concat chunks) ->
+    StronglySorted Z.lt (ipos_marks msg deser end_height (concat chunks)) ->
+    (forall pre p0 post, (0 < h)%Z -> concat chunks = pre ++ IGood p0 :: post ->
+       mark msg deser end_height p0 = Some h ->
+       search crc32c msg deser end_height g h true = SFound (istream crc32c post)) /\
+    ((h <= 0)%Z -> In h (imarks msg deser end_height (concat chunks)) ->
+       exists rest, search crc32c msg deser end_height g h true = SFound rest) /\
+    (~ In h (imarks msg deser end_height (concat chunks)) -> search crc32c msg deser end_height g h true = SNotFound) /\
+    (search crc32c msg deser end_height g h false = search crc32c msg deser end_height g h true \/
+     exists c, bad_class (concat chunks) c /\ search crc32c msg deser end_height g h false = SErr c).
+Proof. exact top_search_damaged. Qed.
+Print Assumptions C15_search_damaged.
+
+Theorem C15_flipped_steps_over :
+  forall (msg : Type) (deser : bytes -> option msg) (p : bytes) (i : nat) (b' : N),
+    wf_bytes p -> p <> [] -> (lenN p <= max_msg_size_bytes)%N ->
+    i < length (frame crc32c p) -> ~ (4 <= i < 8) -> (b' < 256)%N -> nth i (frame crc32c p) 0%N <> b' ->
+    iok crc32c msg deser (IBad (set_nth i b' (frame crc32c p)) CCrc).
+Proof. exact top_flipped_steps_over. Qed.
+Print Assumptions C15_flipped_steps_over.
+
+Theorem C15_search_damaged_example :
+  let bad := set_nth 8 9%N (frame crc32c [5%N]) in
+  let g := mkGroup 0 [] (frame crc32c [3%N] ++ bad ++ frame crc32c [7%N]) [] 0 in
+  search crc32c Z toy_deser toy_eh g 7 true = SFound [] /\
+  search crc32c Z toy_deser toy_eh g 3 true = SFound (bad ++ frame crc32c [7%N]) /\
+  search crc32c Z toy_deser toy_eh g 5 true = SNotFound /\
+  search crc32c Z toy_deser toy_eh g 3 false = SFound (bad ++ frame crc32c [7%N]) /\
+  search crc32c Z toy_deser toy_eh g 7 false = SErr CCrc.
+Proof. exact toy_search_damaged. Qed.
+Print Assumptions C15_search_damaged_example.
 
 (** the restart-after-rotation scenario, computed: the newest file holds only the restart marker,
     heights in the rotated files are still found *)
@@ -157,6 +271,84 @@ Theorem C15_repair_prefix :
     repair crc32c msg ser deser (frames crc32c ps ++ tail) = (frames crc32c ps, true).
 Proof. exact top_repair. Qed.
 Print Assumptions C15_repair_prefix.
+
+(** Repairing a TRUNCATED log (a crash in the middle of a write): the result is the frames of a prefix
+    of the written records — the record cut by the truncation is dropped, or (os.File zero-fill) completed
+    to exactly what it was; never anything else, short of an explicit CRC collision on a payload that
+    unmarshals. *)
+Theorem C15_repair_truncated :
+  forall (msg : Type) (ser : msg -> bytes) (deser : bytes -> option msg)
+         (ps : list bytes) (ms : list msg) (n : nat),
+    Forall2 (canon msg ser deser) ps ms -> n < length (frames crc32c ps) ->
+    (exists j, repair crc32c msg ser deser (firstn n (frames crc32c ps)) = (frames crc32c (firstn j ps), true)) \/
+    (exists p, In p ps /\ collision crc32c msg deser p).
+Proof. exact top_repair_truncated. Qed.
+Print Assumptions C15_repair_truncated.
+
+(** The repair steps of ConsensusState.OnStart — the corrupted WAL is backed up by copying it (it
+    stays in place) and repairWalFile(backup, wal) rewrites it: the backup is the corrupted file, the WAL
+    afterwards is exactly the frames of the longest valid prefix (the destination is truncated). *)
+Theorem C15_repair_onstart :
+  forall (msg : Type) (ser : msg -> bytes) (deser : bytes -> option msg)
+         (ps : list bytes) (ms : list msg) (tail : bytes),
+    Forall2 (canon msg ser deser) ps ms ->
+    (forall m r, decode crc32c msg deser RFile tail <> OMsg m r) ->
+    repair_onstart crc32c msg ser deser (frames crc32c ps ++ tail) = (frames crc32c ps ++ tail, frames crc32c ps, true).
+Proof. exact top_repair_onstart. Qed.
+Print Assumptions C15_repair_onstart.
+
+(** ...and the truncation is what does it: the repaired prefix written over the corrupted file
+    WITHOUT truncating it leaves that file exactly as corrupted as it was *)
+Theorem C15_repair_needs_truncate :
+  forall (msg : Type) (ser : msg -> bytes) (deser : bytes -> option msg)
+         (ps : list bytes) (ms : list msg) (tail : bytes),
+    Forall2 (canon msg ser deser) ps ms ->
+    (forall m r, decode crc32c msg deser RFile tail <> OMsg m r) -> tail <> [] ->
+    let wal := frames crc32c ps ++ tail in
+    file_overwrite wal (fst (repair crc32c msg ser deser wal)) = wal /\ wal <> frames crc32c ps.
+Proof. exact top_repair_needs_truncate. Qed.
+Print Assumptions C15_repair_needs_truncate.
+
+(** A group whose rotated files are intact and whose head file is damaged after the records [cur]:
+    after the OnStart repair steps every message of the rotated files and of the head's longest valid
+    prefix reads back through a GroupReader, in order, followed by a clean end-of-log. *)
+Theorem C15_repair_group :
+  forall (msg : Type) (ser : msg -> bytes) (deser : bytes -> option msg)
+         (g : group) (chunks : list (list bytes)) (cur : list bytes) (tail : bytes) (ms : list msg) (cont : bool),
+    g_files g = map (frames crc32c) chunks -> g_head g = frames crc32c cur ++ tail ->
+    Forall2 (canon msg ser deser) (concat chunks ++ cur) ms ->
+    (forall m r, decode crc32c msg deser RFile tail <> OMsg m r) ->
+    let g' := fst (repair_head crc32c msg ser deser g) in
+    snd (repair_head crc32c msg ser deser g) = true /\
+    disk_files g' = map (frames crc32c) (chunks ++ [cur]) /\
+    read_log crc32c msg deser cont RGroup (group_stream g' (g_min g')) = map ObMsg ms ++ [ObEof].
+Proof. exact top_repair_group. Qed.
+Print Assumptions C15_repair_group.
+
+(** SearchForEndHeight on the repaired group: as on an undamaged group holding those records *)
+Theorem C15_repair_group_search :
+  forall (msg : Type) (ser : msg -> bytes) (deser : bytes -> option msg) (end_height : msg -> option Z)
+         (g : group) (chunks : list (list bytes)) (cur : list bytes) (tail : bytes) (ms : list msg) (h : Z) (ign : bool),
+    g_files g = map (frames crc32c) chunks -> g_head g = frames crc32c cur ++ tail ->
+    Forall2 (canon msg ser deser) (concat chunks ++ cur) ms ->
+    (forall m r, decode crc32c msg deser RFile tail <> OMsg m r) ->
+    StronglySorted Z.lt (pos_marks msg deser end_height (concat chunks ++ cur)) ->
+    let g' := fst (repair_head crc32c msg ser deser g) in
+    (forall pre p0 post, (0 < h)%Z -> concat chunks ++ cur = pre ++ p0 :: post ->
+       mark msg deser end_height p0 = Some h ->
+       search crc32c msg deser end_height g' h ign = SFound (frames crc32c post)) /\
+    ((h <= 0)%Z -> In h (marks msg deser end_height (concat chunks ++ cur)) ->
+       exists rest, search crc32c msg deser end_height g' h ign = SFound rest) /\
+    (~ In h (marks msg deser end_height (concat chunks ++ cur)) ->
+       search crc32c msg deser end_height g' h ign = SNotFound).
+Proof. exact top_repair_group_search. Qed.
+Print Assumptions C15_repair_group_search.
+
+Theorem C15_repair_group_example :
+  let g := mkGroup 0 [frame crc32c [3%N]] (frame crc32c [7%N] ++ [1%N; 2%N; 3%N]) [] 0 in
+  repair_head crc32c Z toy_ser toy_deser g = (mkGroup 0 [frame crc32c [3%N]] (frame crc32c [7%N]) [] 0, true).
+Proof. exact toy_repair_group. Qed.
+Print Assumptions C15_repair_group_example.
 
 (** the zero-fill behaviour of the os.File reader (used by repairWalFile) is real: a frame cut
     inside trailing zero bytes is completed and decoded, to the message that was written; the
